@@ -24,6 +24,7 @@ import (
 	"strconv"
 	"strings"
 	"testing"
+	"unicode"
 
 	"github.com/tucats/ego/internal/verifh/srvfix"
 	"github.com/tucats/ego/internal/verifh/vh"
@@ -208,6 +209,16 @@ func modelVal(v any, class string) any {
 // backslash: egostrings.JSONMinify (reported under C19) then strips the white space inside every later string of
 // the body. That is a defect of the response writer, not of the statement that was executed.
 var c14StripWS bool
+
+func stripSpace(s string) string {
+	return strings.Map(func(r rune) rune {
+		if unicode.IsSpace(r) {
+			return -1
+		}
+
+		return r
+	}, s)
+}
 
 func rowKey(vals []any) string {
 	var b strings.Builder
@@ -1533,6 +1544,10 @@ func txReq(tk *txTask) *c14Req {
 
 // hostile places adv at a position; returns nil when the position does not apply.
 func (g *c14Gen) hostile(pos, adv string, v int, nextID *int64) *c14Req {
+	// every update writes a value no row holds yet, so that an update of the wrong rows is always visible
+	*nextID++
+	mark := fmt.Sprintf("hostile%d", *nextID)
+
 	// the variant number selects request kind / shape deterministically (mixed radix)
 	pick := func(k int) int {
 		x := v % k
@@ -1553,7 +1568,7 @@ func (g *c14Gen) hostile(pos, adv string, v int, nextID *int64) *c14Req {
 
 	withBody := func(rq *c14Req) *c14Req {
 		if rq.Kind == "patch" && rq.Body == "" {
-			rq.Body = `{"grp":"hostile"}`
+			rq.Body = `{"grp":"` + mark + `"}`
 		}
 
 		if rq.Kind == "getabs" {
@@ -1582,7 +1597,7 @@ func (g *c14Gen) hostile(pos, adv string, v int, nextID *int64) *c14Req {
 	case "columns":
 		return withBody(&c14Req{Kind: []string{"get", "getabs"}[pick(2)], Table: "t", Pos: pos, Adv: adv, Params: []kv{{"columns", adv}, {"limit", "5"}}})
 	case "columns.patch":
-		return &c14Req{Kind: "patch", Table: "t", Pos: pos, Adv: adv, Params: []kv{{"filter", "EQ(id,3)"}, {"columns", adv}}, Body: `{"grp":"hostile","name":"h"}`}
+		return &c14Req{Kind: "patch", Table: "t", Pos: pos, Adv: adv, Params: []kv{{"filter", "EQ(id,3)"}, {"columns", adv}}, Body: `{"grp":"` + mark + `","name":"h` + mark + `"}`}
 	case "sort":
 		return withBody(&c14Req{Kind: []string{"get", "getabs"}[pick(2)], Table: "t", Pos: pos, Adv: adv, Params: []kv{{"sort", adv}, {"columns", "id,name"}, {"limit", "5"}}})
 	case "limit":
@@ -1629,7 +1644,7 @@ func (g *c14Gen) hostile(pos, adv string, v int, nextID *int64) *c14Req {
 	case "row.rowid":
 		v, _ := json.Marshal(adv)
 
-		return &c14Req{Kind: "patch", Table: "t", Pos: pos, Adv: adv, Body: `{"grp":"hostile","_row_id_":` + string(v) + `}`}
+		return &c14Req{Kind: "patch", Table: "t", Pos: pos, Adv: adv, Body: `{"grp":"` + mark + `","_row_id_":` + string(v) + `}`}
 	case "upsert":
 		*nextID++
 
@@ -1654,7 +1669,7 @@ func (g *c14Gen) hostile(pos, adv string, v int, nextID *int64) *c14Req {
 
 		switch op {
 		case "update":
-			tk.Data = map[string]any{"grp": "hostile"}
+			tk.Data = map[string]any{"grp": mark}
 		case "insert":
 			*nextID++
 			tk.Filters = nil
@@ -1679,7 +1694,7 @@ func (g *c14Gen) hostile(pos, adv string, v int, nextID *int64) *c14Req {
 		}
 
 		if op == "update" {
-			tk.Data = map[string]any{"grp": "hostile"}
+			tk.Data = map[string]any{"grp": mark}
 		}
 
 		rq := txReq(tk)
@@ -1691,7 +1706,7 @@ func (g *c14Gen) hostile(pos, adv string, v int, nextID *int64) *c14Req {
 		tk := &txTask{Op: op, Table: "t", Filters: []string{"EQ(id,1)"}, Columns: []string{adv}}
 
 		if op == "update" {
-			tk.Data = map[string]any{"grp": "hostile"}
+			tk.Data = map[string]any{"grp": mark}
 		}
 
 		rq := txReq(tk)
@@ -1764,7 +1779,7 @@ func c14Probes() []*c14Req {
 		{Kind: "get", Table: "t", Pos: "filter.ident", Params: []kv{{"filter", "EQ(nosuch,1)"}}},
 		{Kind: "get", Table: "t", Pos: "filter.value.num", Params: []kv{{"filter", "EQ(id,nosuch)"}}},
 		{Kind: "delete", Table: "t", Pos: "filter.raw", Params: []kv{{"filter", "1"}}},
-		tx("tx.filter", &txTask{Op: "update", Table: "t", Filters: []string{"1"}, Data: map[string]any{"grp": "hostile"}}),
+		tx("tx.filter", &txTask{Op: "update", Table: "t", Filters: []string{"1"}, Data: map[string]any{"grp": "hostile-probe"}}),
 	}
 }
 
